@@ -248,7 +248,7 @@ def c37(ctx):
         states, trans = states + g.distinct, trans + g.generated
     nsched = len(json.load(open(tabs["GenKeepalive.cfg"])))
     vc = _vcomp(ctx)
-    variants = ["v4ping"] if ctx.quick else ["v4ping", "v5ping", "v4pub"]
+    variants = ["v4ping", "v4sub"] if ctx.quick else ["v4ping", "v5ping", "v4pub", "v4sub", "v4long0"]
 
     def play(variant, ids, tag):
         tr = ctx.path("traces", "ka_%s_%s.ndjson" % (variant, tag))
